@@ -103,6 +103,9 @@ func newAuthWorld() *authWorld {
 }
 
 func (a *authWorld) counter(r, chain string, v int64) string {
+	if v == 3 {
+		return fmt.Sprintf("cp-any-%s-v3", chain) // an address several relayers share on that chain
+	}
 	return fmt.Sprintf("cp-%s-%s-v%d", r, chain, v)
 }
 
